@@ -86,7 +86,7 @@ static void op_claim(bool always_send)
 	bool expect = n_claim - n_rel < depth;
 	uint32_t slot = n_claim % depth;
 	for (int r = 0; r < nroutes; r++)
-		res[r] = messageq_claim(rt[r].mq);
+		res[r] = ONCE_V(1, messageq_claim(ARG(rt[r].mq)));
 	for (int r = 0; r < nroutes; r++) {
 		void *want = expect ? rt[r].store + slot * msg_len : NULL;
 		if (res[r] != want) {
@@ -120,7 +120,7 @@ static void op_claim(bool always_send)
 		/* usually send at once; sometimes leave it pending for a reordered send */
 		if (always_send || sim_choose(4)) {
 			for (int r = 0; r < nroutes; r++)
-				messageq_send(rt[r].mq, res[r]);
+				ONCE(2, messageq_send(ARG(rt[r].mq), ARG(res[r])));
 			sent[slot] = true;
 			EV("send", slot, 0, 0);
 		}
@@ -146,7 +146,7 @@ static void op_send_pending(int which)
 		if (pick > 0)
 			sim_probe(P_SEND_REORDERED);
 		for (int r = 0; r < nroutes; r++)
-			messageq_send(rt[r].mq, rt[r].store + slot * msg_len);
+			ONCE(2, messageq_send(ARG(rt[r].mq), ARG(rt[r].store + slot * msg_len)));
 		sent[slot] = true;
 		EV("send", slot, 1, 0);
 	}
@@ -160,7 +160,7 @@ static void op_receive(void)
 	if (n_recv < n_claim && !sent[slot])
 		sim_probe(P_RECEIVE_BLOCKED);
 	for (int r = 0; r < nroutes; r++)
-		res[r] = messageq_receive(rt[r].mq);
+		res[r] = ONCE_V(1, messageq_receive(ARG(rt[r].mq)));
 	for (int r = 0; r < nroutes; r++) {
 		void *want = expect ? rt[r].store + slot * msg_len : NULL;
 		if (res[r] != want)
@@ -183,7 +183,7 @@ static void op_release(void)
 		if (n_recv - n_rel > 1)
 			sim_probe(P_HELD_DELAYED);
 		for (int r = 0; r < nroutes; r++)
-			messageq_release(rt[r].mq, rt[r].store + slot * msg_len);
+			ONCE(2, messageq_release(ARG(rt[r].mq), ARG(rt[r].store + slot * msg_len)));
 		n_rel++;
 		EV("release", slot, 0, 0);
 	}
@@ -193,7 +193,7 @@ static void op_empty(void)
 {
 	bool expect = !(n_recv < n_claim && sent[n_recv % depth]);
 	for (int r = 0; r < nroutes; r++) {
-		bool e = messageq_empty(rt[r].mq);
+		bool e = ONCE_V(1, messageq_empty(ARG(rt[r].mq)));
 		if (e != expect)
 			sim_fail(NULL, "EMPTY", "messageq_empty returned %d but receive would %s (route %d)",
 				 e, expect ? "return nothing" : "return a message", r);
@@ -251,7 +251,7 @@ static void run(void)
 		sim_budget(100000);
 		if (use_init) {
 			memset(rt[r].mq, 0x5a, sizeof(messageq_t));	/* init must not depend on prior contents */
-			messageq_init(rt[r].mq, rt[r].store, base_len, msg_len);
+			ONCE(4, messageq_init(ARG(rt[r].mq), ARG(rt[r].store), ARG(base_len), ARG(msg_len)));
 		} else {
 			if (lead) {
 				uint32_t *pool = (uint32_t *)block;
